@@ -196,6 +196,16 @@ impl Scenario for Chunk {
         let (st, mode) = gen_stream(rng, &p.doc, true);
         p.stream = st;
         p.note.push_str(&format!("; cuts: {}", mode));
+        if rng.chance(1, 16)
+            && std::str::from_utf8(&p.doc).is_ok()
+            && !declares_encoding(&p.doc)
+            && (!starts_with_signature(&p.doc) || p.doc.starts_with(&[0xEF, 0xBB, 0xBF]))
+        {
+            // the other in-memory constructor: Reader::from_str must agree with from_reader(&[u8])
+            p.stream = Stream::slice();
+            p.stream.kind = SourceKind::Str;
+            return p;
+        }
         if p.doc.len() >= 2 && p.doc.len() <= 10 && rng.chance(1, 3) {
             p.enumerate = true; // all 2^(n-1) cut sets
             p.stream.cuts.clear();
@@ -241,7 +251,14 @@ impl Scenario for Chunk {
         let reference = run_reads(&plan.doc, &shared, &slice_st, plan.reader, plan.cfg, tag, false);
         st.executions += 1;
         monitor_violations(&reference, plan, "slice run", &mut out);
-        let streams: Vec<Stream> = if plan.enumerate {
+        // Reader::from_str is only comparable for UTF-8 text without an encoding declaration
+        // and without a UTF-16 style signature (with the `encoding` feature from_str locks UTF-8)
+        let str_ok = std::str::from_utf8(&plan.doc).is_ok()
+            && !declares_encoding(&plan.doc)
+            && (!starts_with_signature(&plan.doc) || plan.doc.starts_with(&[0xEF, 0xBB, 0xBF]));
+        let streams: Vec<Stream> = if plan.stream.kind == SourceKind::Str && !str_ok {
+            vec![slice_st.clone()]
+        } else if plan.enumerate {
             all_cut_sets(plan.doc.len())
                 .into_iter()
                 .map(|c| {
@@ -481,7 +498,7 @@ fn run_ops_on(plan: &Plan, shared: &Rc<Vec<u8>>, st: &Stream) -> RunRec {
                 monitor.push(("position-decreased".into(), format!("op {} ({:?}): {} -> {}", i, op, last_pos, pos)));
             }
             last_pos = pos;
-            let limit = if st.kind == SourceKind::Slice { eff_len as u64 } else { log.borrow().handed };
+            let limit = if matches!(st.kind, SourceKind::Slice | SourceKind::Str) { eff_len as u64 } else { log.borrow().handed };
             if pos > limit {
                 monitor.push(("position-beyond-input".into(), format!("op {} ({:?}): position {} > {} bytes handed out", i, op, pos, limit)));
             }
@@ -513,4 +530,11 @@ fn run_ops_on(plan: &Plan, shared: &Rc<Vec<u8>>, st: &Stream) -> RunRec {
         hit_trunc_eof: l.hit_trunc_eof,
         ticks,
     }
+}
+
+/// from_str locks the encoding to UTF-8 (with the `encoding` feature); a document that
+/// declares any encoding is therefore not comparable between the two constructors
+fn declares_encoding(doc: &[u8]) -> bool {
+    let l: Vec<u8> = doc.iter().map(|b| b.to_ascii_lowercase()).collect();
+    l.windows(8).any(|w| w == b"encoding")
 }
